@@ -16,6 +16,8 @@ func main() {
 	switch os.Args[1] {
 	case "frame":
 		runFrame()
+	case "frame-worker":
+		runFrameWorker()
 	case "importsort":
 		runImportSort()
 	case "rearrange":
